@@ -38,10 +38,45 @@ func poolRules(p *Prog, r *Report, R string) {
 				found = true
 				for _, el := range cl.Elts {
 					ecl, ok := el.(*ast.CompositeLit)
+					// an entry built by a one-argument constructor (`newMsgCache(64)`): read the
+					// constructor's returned literal with its parameter bound to the constant
+					var bindName string
+					var bindVal int64 = -1
+					if call, isCall := el.(*ast.CallExpr); isCall && !ok && len(call.Args) == 1 {
+						if tv, okc := root.TypesInfo.Types[call.Args[0]]; okc && tv.Value != nil {
+							if id, isId := call.Fun.(*ast.Ident); isId {
+								for _, f2 := range p.SubjectFiles(root) {
+									for _, d := range f2.Decls {
+										fd, isFd := d.(*ast.FuncDecl)
+										if !isFd || fd.Recv != nil || fd.Name.Name != id.Name || fd.Body == nil || len(fd.Body.List) != 1 || fd.Type.Params.NumFields() != 1 {
+											continue
+										}
+										if rs, isRet := fd.Body.List[0].(*ast.ReturnStmt); isRet && len(rs.Results) == 1 {
+											if rcl, isCl := rs.Results[0].(*ast.CompositeLit); isCl && len(fd.Type.Params.List[0].Names) == 1 {
+												ecl, ok = rcl, true
+												bindName = fd.Type.Params.List[0].Names[0].Name
+												bindVal, _ = constant.Int64Val(tv.Value)
+											}
+										}
+									}
+								}
+							}
+						}
+					}
 					if !ok {
 						continue
 					}
-					e := ent{max: -1, alloc: -1, pos: ecl.Pos()}
+					constOf := func(x ast.Expr) (int64, bool) {
+						if id, isId := x.(*ast.Ident); isId && bindName != "" && id.Name == bindName {
+							return bindVal, true
+						}
+						if tv, okc := root.TypesInfo.Types[x]; okc && tv.Value != nil {
+							v, _ := constant.Int64Val(tv.Value)
+							return v, true
+						}
+						return -1, false
+					}
+					e := ent{max: -1, alloc: -1, pos: el.Pos()}
 					for _, kvx := range ecl.Elts {
 						kv, ok := kvx.(*ast.KeyValueExpr)
 						if !ok {
@@ -53,8 +88,8 @@ func poolRules(p *Prog, r *Report, R string) {
 						}
 						switch key.Name {
 						case "maxbody":
-							if tv, ok := root.TypesInfo.Types[kv.Value]; ok && tv.Value != nil {
-								e.max, _ = constant.Int64Val(tv.Value)
+							if v, ok := constOf(kv.Value); ok {
+								e.max = v
 							}
 						case "pool":
 							ast.Inspect(kv.Value, func(m ast.Node) bool {
@@ -63,8 +98,8 @@ func poolRules(p *Prog, r *Report, R string) {
 									return true
 								}
 								if id, ok := call.Fun.(*ast.Ident); ok && id.Name == "newMsg" && len(call.Args) == 1 {
-									if tv, ok := root.TypesInfo.Types[call.Args[0]]; ok && tv.Value != nil {
-										e.alloc, _ = constant.Int64Val(tv.Value)
+									if v, ok := constOf(call.Args[0]); ok {
+										e.alloc = v
 									}
 								}
 								return true
